@@ -76,7 +76,9 @@ def c10_1(ctx: Ctx):
         if lin.under(g, "last_block is not None"):
             # where exactly the existing blocks end is C10.7's business (end of the last-starting block was defect F41)
             t = src(g.node.value)
-            ok = ok and ("max(" in t and ".offset + " in t and ".size" in t or linform(g.node.value) == {"last_block.offset": 1, "last_block.size": 1})
+            from .round4 import _running_max_of_block_ends
+            ok = ok and ("max(" in t and ".offset + " in t and ".size" in t or linform(g.node.value) == {"last_block.offset": 1, "last_block.size": 1}
+                         or (isinstance(g.node.value, ast.Name) and _running_max_of_block_ends(ctx.repo, "intervalutils.join_byte_intervals", g.node.value.id)))
         else:
             ok = ok and src(g.node.value) == "0"
     for g in sizes:
